@@ -12,9 +12,9 @@ from .c12 import sig, compact
 
 I = z3.Int
 BOUNDS = {"quick": [dict(what="saver", K=3, pre=2, to=1), dict(what="joiner", K=3, pre=1, to=1), dict(what="joiner", K=3, pre=1, to=1, sil0=True),
-                    dict(what="regions", K=3, pre=1, to=1)],
+                    dict(what="regions", K=3, pre=1, to=1), dict(what="saver-late", K=2, pre=1, to=1)],
           "thorough": [dict(what="saver", K=5, pre=2, to=1), dict(what="saver", K=3, pre=3, to=2), dict(what="joiner", K=5, pre=2, to=1),
-                       dict(what="joiner", K=4, pre=2, to=1, sil0=True), dict(what="regions", K=5, pre=2, to=1), dict(what="saver+joiner", K=3, pre=2, to=1)]}
+                       dict(what="joiner", K=4, pre=2, to=1, sil0=True), dict(what="regions", K=5, pre=2, to=1), dict(what="saver+joiner", K=3, pre=2, to=1), dict(what="saver-late", K=3, pre=2, to=1)]}
 TEMPLATE = "det_{id}_{start:.3f}_{end:.3f}_{duration:.2f}.wav"
 SIL_Q = 4   # silence duration in quarter samples
 
@@ -36,11 +36,13 @@ def run_once(mods, e, s, what, K, data, val, cache_bytes, sil_q, fs, skw=None):
     observers, saver, joiner, rsaver = [], None, None, None
     src = reader
     keep = []
+    late = "late" in what
     if "saver" in what:
         saver = W.StreamSaverWorker(reader, filename="stream.wav", export_format=None, cache_size_sec=cache_bytes)
         keep.append(saver)
         src = saver
-        saver.start()
+        if not late:
+            saver.start()
     if "joiner" in what:
         joiner = W.AudioEventsJoinerWorker(silence_duration=sil_q, filename="joined.wav", export_format=None, sampling_rate=thr.SR,
                                            sample_width=thr.SW, channels=thr.CH)
@@ -57,6 +59,8 @@ def run_once(mods, e, s, what, K, data, val, cache_bytes, sil_q, fs, skw=None):
     tw = W.TokenizerWorker(src, observers, validator=val2, **skw)
     s.private.add(id(tw._inbox))
     tw.start_all()
+    if saver is not None and late:
+        saver.start()            # the writer thread is started after the reader thread: nothing read may be lost
     tw.join()
     for o in observers:
         o.join()
@@ -125,6 +129,7 @@ def harness(L, what, K, max_pre, max_to, sil0=False):
 
     def path(e):
         s = S.Sched(e, max_timeouts=max_to, max_preempt=max_pre)
+        s.yield_on_start = "late" in what
         fs = iostub.FS()
         iostub.install(L, fs)
         val = thr.window_validator(data)
@@ -179,6 +184,7 @@ def replay_fn(c):
     cwd = os.getcwd()
     os.chdir(tmp)
     s = S.Sched(None, max_timeouts=c["to"] + 50, max_preempt=10 ** 6)
+    s.yield_on_start = "late" in c["what"]
     s.script = [tuple(x) for x in c["schedule"]]
     err = obs = None
     skw = dict(thr.SPLIT_KW, max_silence=0) if c.get("sil0") else thr.SPLIT_KW
